@@ -219,6 +219,31 @@ func main() {
 		return
 	}
 	typedScripts()
+	// a sequence grown by Cons, consumed to empty with Tail only, and on the way two different Cons onto every
+	// remainder (the empty one included): spare capacity behind a remainder is never shared between the two
+	for _, n := range []int{0, 1, 2, 3, 4, 5, 6, 7, 8, 9, 10, 12, 15, 16, 17, 20, 31, 32, 33, 64} {
+		for _, grow := range []int{1, 2, 3} {
+			xs := make([]int, n)
+			for i := range xs {
+				xs[i] = 500 + i
+			}
+			script := []op{{Op: "new", Xs: xs}}
+			cur := 0
+			for g := 0; g < grow; g++ {
+				script = append(script, op{Op: "cons", X: 900 + g, Src: cur})
+				cur = len(script) - 1
+			}
+			for i := 0; i < n+grow; i++ {
+				script = append(script, op{Op: "tail", Src: cur})
+				cur = len(script) - 1
+				script = append(script, op{Op: "cons", X: 7000 + 2*i, Src: cur}, op{Op: "cons", X: 7001 + 2*i, Src: cur})
+			}
+			runScript(script)
+			if n <= 17 {
+				runTypedKind("", script)
+			}
+		}
+	}
 	runSharedWalkers(common.Pick(20000, 200000))
 	for _, n := range []int{1 << 20, 4 << 20}[:common.Pick(1, 2)] {
 		runLongSeq(n)
